@@ -193,6 +193,16 @@ Example seq_trailer_witness :
   outcome_at (seq_prog ErrorHandlingRecover seq_witness) OnlyK 2 = OIO.
 Proof. exact seq_trailer_refuted_lemma. Qed.
 
+(* what the injected error looks like (wrapping io.EOF, an Is method, a timeout)
+   is invisible to the == comparisons of the checker; the errors.Is comparison
+   of before fix F59 lost an error that wraps io.EOF *)
+Example error_shape_and_the_checker :
+  let wraps_eof := fun c => match c with IO 7 => true | _ => false end in
+  promote_ctor (chk_update None ([], Some (IO 7))) Malformed = IO 7 /\
+  promote_ctor (chk_update_is wraps_eof None ([], Some (IO 7))) Malformed = Malformed /\
+  (forall c, chk_update_is (fun _ => false) None ([], Some c) = chk_update None ([], Some c)).
+Proof. exact errors_Is_checker_loses_the_error. Qed.
+
 Example chain_stacks : chain_outcomes 3 OnlyK = [OIO; OIO; OIO] /\ chain_outcomes 4 FromK = [OIO; OIO; OIO; OIO].
 Proof. exact chain_examples. Qed.
 
